@@ -43,6 +43,7 @@ type c17Op struct {
 	Opts string `json:"opts"`
 	Q    int    `json:"q"`
 	N    int    `json:"n"`
+	K    int    `json:"k,omitempty"` // churn: iterations per goroutine (default 6)
 }
 
 type c17History struct {
@@ -321,7 +322,11 @@ func workerC17(args []string) int {
 					go func(g int) {
 						defer wg.Done()
 						<-gate
-						for it := 0; it < 6; it++ {
+						iters := 6
+						if op.K > 0 {
+							iters = op.K
+						}
+						for it := 0; it < iters; it++ {
 							qi := (op.Q + g + it) % len(f.Queries)
 							q, e := f.Queries[qi], exps[op.File][qi]
 							var v string
@@ -603,6 +608,19 @@ func runC17(r *vf.Run) {
 		c17History{ID: "regress-two-options", Ops: []c17Op{{Op: "open", H: 0, File: 1}, {Op: "open", H: 1, File: 1, Opts: "?preload=true"}, {Op: "query", H: 0, Q: 2}, {Op: "query", H: 1, Q: 2}, {Op: "close", H: 0}, {Op: "close", H: 1}}},
 		c17History{ID: "regress-first-use-16", Ops: []c17Op{{Op: "open", H: 0, File: 2}, {Op: "pool", H: 0, N: 16}, {Op: "burst", H: 0, Q: 0, N: 16}, {Op: "close", H: 0}}},
 	)
+	// stress block: the last Close of one handle against the Open of another on the same data source, many times;
+	// and one handle without idle connections under concurrent queries
+	for i := 0; i < r.Pick(6, 24); i++ {
+		o := c17OptStrings[i%len(c17OptStrings)]
+		all = append(all, c17History{ID: fmt.Sprintf("stress-churn-%d", i), Ops: []c17Op{{Op: "churn", File: i % 3, Opts: o, N: 4 + 4*(i%3), Q: i, K: r.Pick(150, 400)}}})
+		var ops []c17Op
+		ops = append(ops, c17Op{Op: "open", H: 0, File: (i + 1) % 3, Opts: o}, c17Op{Op: "idle0", H: 0})
+		for k := 0; k < r.Pick(12, 40); k++ {
+			ops = append(ops, c17Op{Op: "burst", H: 0, Q: k, N: 8 + 8*(k%2)})
+		}
+		ops = append(ops, c17Op{Op: "close", H: 0})
+		all = append(all, c17History{ID: fmt.Sprintf("stress-idle0-%d", i), Ops: ops})
+	}
 	for i := 0; i < nh; i++ {
 		id := fmt.Sprintf("h%04d", i)
 		all = append(all, c17GenHistory(r.RNG(id), id, len(spec.Files), 12))
